@@ -318,3 +318,286 @@ Proof.
   - cbn. repeat constructor; cbn; intuition discriminate.
   - apply Permutation_sym. apply (Permutation_cons_app [WithAlpha 3%R; WithPriors [1%R; 2%R]] []). reflexivity.
 Qed.
+
+(* ------------------------------------------------------------------------------------------
+   Rounding of the binary64 instance (`FOps`: the very definitions the correspondence executes
+   against the Rust code), proved through Flocq's PrimFloat bridge (Base/FloatError.v: FR x = real
+   value of a float, ffin = finite, u64 = 2^-53, eta64 = 2^-1075, rnd64 = rounding to the nearest
+   binary64 number; C11/ProofsFloat.v).  The sufficient statistics are COUNTS held in `usize`
+   (`nat` in the model): they do not depend on the scalar type, so at binary64 they are the exact
+   integer counts of theorems (2), (5), (6).  Floating point enters through `to_usize` of the
+   entries (exact on integer-valued floats), `T::from(count)` (exact below 2^53), the prior
+   count / n (one correctly rounded division), the argument of the logarithm
+   (count + alpha) / (total + alpha * m) (four roundings) and the Gaussian mean.  The logarithm
+   itself (a software ln in the float instance) and everything after it (log-likelihoods, the
+   arg-max over rounded scores) are NOT covered: validated per run only.
+   ------------------------------------------------------------------------------------------ *)
+From Coq Require Import Floats Lia.
+From SC Require Base.FloatError.
+From SC Require C11.Corr.
+From SC Require C11.ProofsFloat.
+
+(* (F1) a binary64 counter that starts at 0 and is incremented by non-negative integer-valued floats
+   (by 1.0 in particular) is exact while the total is at most 2^53 *)
+Theorem C11_float_counter_exact : forall (l : list PrimFloat.float) (cs : list nat),
+  Forall2 (fun v c => FloatError.ffin v /\ FloatError.FR v = INR c) l cs ->
+  (Z.of_nat (list_sum cs) <= 2 ^ 53)%Z ->
+  FloatError.ffin (fold_left PrimFloat.add l 0%float) /\
+  FloatError.FR (fold_left PrimFloat.add l 0%float) = INR (list_sum cs).
+Proof. exact C11.ProofsFloat.fsum_counter_exact. Qed.
+
+Theorem C11_float_count_by_one_exact : forall (n : nat), (Z.of_nat n <= 2 ^ 53)%Z ->
+  FloatError.ffin (fold_left PrimFloat.add (repeat 1%float n) 0%float) /\
+  FloatError.FR (fold_left PrimFloat.add (repeat 1%float n) 0%float) = INR n.
+Proof. exact C11.ProofsFloat.count_by_one_exact. Qed.
+
+(* num-traits `to_usize` (as modelled for the correspondence: Corr.f_to_usize) of a finite float whose
+   value is the natural number c < 2^64 returns c *)
+Theorem C11_to_usize_integer_exact : forall (v : PrimFloat.float) (c : nat),
+  FloatError.ffin v -> FloatError.FR v = INR c -> (Z.of_nat c < 2 ^ 64)%Z ->
+  C11.Corr.f_to_usize v = Some c.
+Proof. intros v c F E B. apply C11.ProofsFloat.f_to_usize_nat; [split; assumption | exact B]. Qed.
+
+(* (F2) the three variants fitted at binary64 store the class list and the exact integer class counts of
+   (1)-(2), and compute their priors from them; T::from(count) is exact for fewer than 2^53 rows *)
+Theorem C11_class_count_float_exact : forall (y : list Z),
+  let classes := fst (unique_with_indices y) in
+  let counts := count_classes (length classes) (snd (unique_with_indices y)) in
+  (forall x user m, gaussian_fit FOps x y user = Some m ->
+     length x = length y /\ m.(g_classes) = classes /\ m.(g_count) = counts /\
+     class_priors FOps user counts (length y) = Some m.(g_priors)) /\
+  (forall tu x alpha user m, multinomial_fit FOps tu x y alpha user = Some m ->
+     length x = length y /\ m.(c_classes) = classes /\ m.(c_count) = counts /\
+     class_priors FOps user counts (length y) = Some m.(c_priors)) /\
+  (forall tu x0 alpha user th m, bernoulli_fit FOps tu x0 y alpha user th = Some m ->
+     length x0 = length y /\ m.(c_classes) = classes /\ m.(c_count) = counts /\
+     class_priors FOps user counts (length y) = Some m.(c_priors)) /\
+  (forall k, k < length classes ->
+     nth k counts 0 = count_label y (nth k classes 0%Z) /\ nth k counts 0 <= length y) /\
+  ((Z.of_nat (length y) < 2 ^ 53)%Z -> forall k, k < length classes ->
+     FloatError.ffin (oofnat FOps (nth k counts 0)) /\
+     FloatError.FR (oofnat FOps (nth k counts 0)) = INR (count_label y (nth k classes 0%Z))).
+Proof. exact C11.ProofsFloat.class_count_float_exact. Qed.
+
+(* default priors at binary64: prior k is finite and is the correctly rounded quotient n_k / n — relative
+   error at most 2^-53, no underflow term; user priors are passed through unchanged (bit for bit) *)
+Theorem C11_priors_float : forall (y : list Z),
+  0 < length y -> (Z.of_nat (length y) < 2 ^ 53)%Z ->
+  let classes := fst (unique_with_indices y) in
+  let counts := count_classes (length classes) (snd (unique_with_indices y)) in
+  exists pri, class_priors FOps None counts (length y) = Some pri /\ length pri = length classes /\
+    forall k, k < length classes ->
+      let q := (INR (count_label y (nth k classes 0%Z)) / INR (length y))%R in
+      FloatError.ffin (nth k pri 0%float) /\
+      FloatError.FR (nth k pri 0%float) = FloatError.rnd64 q /\
+      (Rabs (FloatError.FR (nth k pri 0%float) - q) <= FloatError.u64 * q)%R.
+Proof. exact C11.ProofsFloat.priors_float. Qed.
+
+Theorem C11_user_priors_float_verbatim : forall (user : list PrimFloat.float) (counts : list nat) (n : nat)
+    (pri : list PrimFloat.float),
+  class_priors FOps (Some user) counts n = Some pri -> pri = user /\ length user = length counts.
+Proof. exact (C11.ProofsFloat.class_priors_user_gen FOps). Qed.
+
+(* (F3) multinomial at binary64 on a training matrix of integer-valued floats (xc: the same matrix as
+   naturals): the conversion succeeds and feature_count[k][j] is the exact integer total of feature j over
+   the rows of class k *)
+Theorem C11_multinomial_feature_count_float_exact : forall (x : list (list PrimFloat.float)) (y : list Z)
+    (alpha : PrimFloat.float) (user : option (list PrimFloat.float)) (m : cnb) (xc : list (list nat)),
+  multinomial_fit FOps C11.Corr.f_to_usize x y alpha user = Some m ->
+  Forall2 (Forall2 (fun v c => FloatError.ffin v /\ FloatError.FR v = INR c /\ (Z.of_nat c < 2 ^ 64)%Z)) x xc ->
+  forall k, k < length m.(c_classes) ->
+    let cnts := nth k m.(c_fcount) [] in
+    length cnts = ncols x /\
+    forall j, j < ncols x ->
+      nth j cnts 0 = list_sum (col 0 j (class_rows xc y (nth k m.(c_classes) 0%Z))).
+Proof. exact C11.ProofsFloat.multinomial_feature_count_float_exact. Qed.
+
+(* feature_log_prob[k][j] = ln q (software ln, not covered) where q is the binary64 value of
+   (N_kj + alpha) / (N_k + alpha * p) in the code's order of operations: for totals and p below 2^53 and
+   2^-1022 <= alpha <= 2^53, q is finite and within relative error 5 * 2^-53 (four roundings; first-order
+   term 4u) plus one underflow term 2^-1075 of the exact smoothed frequency *)
+Theorem C11_multinomial_ratio_float_error : forall (tu : PrimFloat.float -> option nat)
+    (x : list (list PrimFloat.float)) (y : list Z) (alpha : PrimFloat.float)
+    (user : option (list PrimFloat.float)) (m : cnb),
+  multinomial_fit FOps tu x y alpha user = Some m ->
+  forall k j, k < length m.(c_classes) -> j < ncols x ->
+    let cnts := nth k m.(c_fcount) [] in
+    let N := list_sum cnts in let c := nth j cnts 0 in let p := ncols x in
+    let q := PrimFloat.div (PrimFloat.add (oofnat FOps c) alpha)
+                           (PrimFloat.add (oofnat FOps N) (PrimFloat.mul alpha (oofnat FOps p))) in
+    let r := ((INR c + FloatError.FR alpha) / (INR N + FloatError.FR alpha * INR p))%R in
+    nth j (nth k m.(c_flp) []) 0%float = oln FOps q /\
+    ((Z.of_nat N < 2 ^ 53)%Z -> (Z.of_nat p < 2 ^ 53)%Z ->
+     (/ 2 ^ 1022 <= FloatError.FR alpha <= 2 ^ 53)%R ->
+     FloatError.ffin q /\ (0 < r)%R /\
+     (Rabs (FloatError.FR q - r) <= 5 * FloatError.u64 * r + FloatError.eta64)%R).
+Proof. exact C11.ProofsFloat.multinomial_ratio_float_error. Qed.
+
+(* (F3') Bernoulli at binary64: binarisation with a threshold yields a 0/1 matrix whose entries convert
+   exactly, whatever the inputs (NaN and infinities included: `th < v` is just false or true) *)
+Theorem C11_bernoulli_binarize_counts : forall (th : PrimFloat.float) (x0 : list (list PrimFloat.float)),
+  let xc := map (map (fun v => if PrimFloat.ltb th v then 1 else 0)) x0 in
+  Forall2 (Forall2 (fun v c => FloatError.ffin v /\ FloatError.FR v = INR c /\ (Z.of_nat c < 2 ^ 64)%Z))
+          (binarize FOps (Some th) x0) xc /\
+  binary xc.
+Proof. exact C11.ProofsFloat.binarize_counts. Qed.
+
+Theorem C11_bernoulli_feature_count_float_exact : forall (x0 : list (list PrimFloat.float)) (y : list Z)
+    (alpha : PrimFloat.float) (user : option (list PrimFloat.float)) (th : option PrimFloat.float)
+    (m : cnb) (xc : list (list nat)),
+  bernoulli_fit FOps C11.Corr.f_to_usize x0 y alpha user th = Some m ->
+  let x := binarize FOps th x0 in
+  Forall2 (Forall2 (fun v c => FloatError.ffin v /\ FloatError.FR v = INR c /\ (Z.of_nat c < 2 ^ 64)%Z)) x xc ->
+  forall k j, k < length m.(c_classes) -> j < ncols x ->
+    nth k m.(c_count) 0 = count_label y (nth k m.(c_classes) 0%Z) /\
+    nth j (nth k m.(c_fcount) []) 0 = list_sum (col 0 j (class_rows xc y (nth k m.(c_classes) 0%Z))) /\
+    (binary xc -> nth j (nth k m.(c_fcount) []) 0 <= nth k m.(c_count) 0).
+Proof. exact C11.ProofsFloat.bernoulli_feature_count_float_exact. Qed.
+
+(* feature_log_prob[k][j] = ln q with q the binary64 value of (N_kj + alpha) / (n_k + alpha * 2): finite
+   when N_kj <= n_k (binary data), and whenever finite within 5 * 2^-53 relative + 2^-1075 of the exact ratio *)
+Theorem C11_bernoulli_ratio_float_error : forall (tu : PrimFloat.float -> option nat)
+    (x0 : list (list PrimFloat.float)) (y : list Z) (alpha : PrimFloat.float)
+    (user : option (list PrimFloat.float)) (th : option PrimFloat.float) (m : cnb),
+  bernoulli_fit FOps tu x0 y alpha user th = Some m ->
+  forall k j, k < length m.(c_classes) -> j < ncols (binarize FOps th x0) ->
+    let N := nth j (nth k m.(c_fcount) []) 0 in let n_k := nth k m.(c_count) 0 in
+    let q := PrimFloat.div (PrimFloat.add (oofnat FOps N) alpha)
+                           (PrimFloat.add (oofnat FOps n_k) (PrimFloat.mul alpha (PrimFloat.add 1 1))) in
+    let r := ((INR N + FloatError.FR alpha) / (INR n_k + FloatError.FR alpha * 2))%R in
+    nth j (nth k m.(c_flp) []) 0%float = oln FOps q /\
+    ((Z.of_nat N < 2 ^ 53)%Z -> (Z.of_nat n_k < 2 ^ 53)%Z ->
+     (/ 2 ^ 1022 <= FloatError.FR alpha <= 2 ^ 53)%R ->
+     (N <= n_k -> FloatError.ffin q) /\
+     (FloatError.ffin q -> (0 < r)%R /\
+        (Rabs (FloatError.FR q - r) <= 5 * FloatError.u64 * r + FloatError.eta64)%R)).
+Proof. exact C11.ProofsFloat.bernoulli_ratio_float_error. Qed.
+
+(* (F4) Gaussian at binary64: theta[k][j] is the recursive binary64 sum of feature j over the n_k rows of
+   class k (in row order) divided by T::from(n_k); when finite, every summand was finite and the error
+   against the exact mean of the stored (float) data is bounded as C03_vmean_float_error: relative to
+   the mean of magnitudes (there is cancellation), (1+u)^n_k - 1, plus one underflow term *)
+Theorem C11_gaussian_mean_float_error : forall (x : list (list PrimFloat.float)) (y : list Z)
+    (user : option (list PrimFloat.float)) (m : gnb),
+  gaussian_fit FOps x y user = Some m ->
+  forall k j, k < length m.(g_classes) -> j < ncols x ->
+    let rows := class_rows x y (nth k m.(g_classes) 0%Z) in
+    let colf := col 0%float j rows in
+    let n := length rows in
+    let theta := nth j (nth k m.(g_theta) []) 0%float in
+    n = nth k m.(g_count) 0 /\ n = count_label y (nth k m.(g_classes) 0%Z) /\
+    theta = PrimFloat.div (fold_left PrimFloat.add colf 0%float) (oofnat FOps n) /\
+    ((Z.of_nat n < 2 ^ 53)%Z -> FloatError.ffin theta ->
+     let v := map FloatError.FR colf in
+     0 < n /\ Forall FloatError.ffin colf /\
+     (Rabs (FloatError.FR theta - mean v) <=
+        ((1 + FloatError.u64) ^ n - 1) * (FloatError.Rsumabs v / INR n) + FloatError.eta64)%R).
+Proof. exact C11.ProofsFloat.gaussian_mean_float_error. Qed.
+
+(* on integer-valued data (counts) the binary64 column accumulator is exact while the class total is at
+   most 2^53 (it then equals the integer total the count-based variants keep in usize) ... *)
+Theorem C11_class_column_float_sum_exact : forall (x : list (list PrimFloat.float)) (xc : list (list nat))
+    (y : list Z) (c : Z) (j : nat),
+  Forall2 (Forall2 (fun v c => FloatError.ffin v /\ FloatError.FR v = INR c /\ (Z.of_nat c < 2 ^ 64)%Z)) x xc ->
+  let total := list_sum (col 0 j (class_rows xc y c)) in
+  (Z.of_nat total <= 2 ^ 53)%Z ->
+  FloatError.ffin (fold_left PrimFloat.add (col 0%float j (class_rows x y c)) 0%float) /\
+  FloatError.FR (fold_left PrimFloat.add (col 0%float j (class_rows x y c)) 0%float) = INR total.
+Proof. exact C11.ProofsFloat.class_column_float_sum_exact. Qed.
+
+(* ... and the Gaussian class mean is then finite and the correctly rounded quotient total / n_k *)
+Theorem C11_gaussian_mean_integer_data : forall (x : list (list PrimFloat.float)) (xc : list (list nat))
+    (y : list Z) (user : option (list PrimFloat.float)) (m : gnb),
+  gaussian_fit FOps x y user = Some m ->
+  Forall2 (Forall2 (fun v c => FloatError.ffin v /\ FloatError.FR v = INR c /\ (Z.of_nat c < 2 ^ 64)%Z)) x xc ->
+  forall k j, k < length m.(g_classes) -> j < ncols x ->
+    let total := list_sum (col 0 j (class_rows xc y (nth k m.(g_classes) 0%Z))) in
+    let n := nth k m.(g_count) 0 in
+    let theta := nth j (nth k m.(g_theta) []) 0%float in
+    (Z.of_nat total <= 2 ^ 53)%Z -> (Z.of_nat n < 2 ^ 53)%Z ->
+    FloatError.ffin theta /\ FloatError.FR theta = FloatError.rnd64 (INR total / INR n) /\
+    (Rabs (FloatError.FR theta - INR total / INR n) <= FloatError.u64 * (INR total / INR n))%R.
+Proof. exact C11.ProofsFloat.gaussian_mean_integer_data. Qed.
+
+(* ---------------- the hypotheses are satisfiable; what the bounds exclude ---------------- *)
+(* a counter fed 3, 0, 5 (as T::from of the naturals) holds 8; beyond 2^53 increments by 1.0 are lost *)
+Example C11_float_counter_instance :
+  Forall2 (fun v c => FloatError.ffin v /\ FloatError.FR v = INR c) (map (oofnat FOps) [3; 0; 5]) [3; 0; 5] /\
+  (Z.of_nat (list_sum [3; 0; 5]%nat) <= 2 ^ 53)%Z /\
+  fold_left PrimFloat.add (map (oofnat FOps) [3; 0; 5]) 0%float = 8%float /\
+  fold_left PrimFloat.add [0x1p+53; 1; 1]%float 0%float = 0x1p+53%float.
+Proof.
+  split; [|split; [cbn; lia | split; vm_compute; reflexivity]].
+  repeat constructor; apply C11.ProofsFloat.oofnat_exact; cbn; lia.
+Qed.
+
+(* labels 7, -3, 7, 250, -3, 7: counts 2, 3, 1 of 6; the priors 1/3 and 1/6 are not binary64 numbers
+   (they are rounded, within 2^-53 relative), 1/2 is exact *)
+Example C11_priors_float_instance :
+  let y := [7; -3; 7; 250; -3; 7]%Z in
+  0 < length y /\ (Z.of_nat (length y) < 2 ^ 53)%Z /\
+  class_priors FOps None (count_classes 3 (snd (unique_with_indices y))) (length y)
+  = Some [0x1.5555555555555p-2; 0x1p-1; 0x1.5555555555555p-3]%float.
+Proof. cbv zeta. split; [cbn; lia|]. split; [cbn; lia|]. vm_compute. reflexivity. Qed.
+
+(* multinomial, alpha = 0.1 (not a binary64 number), counts as floats; class -2 has feature counts 0 3 1 *)
+Example C11_multinomial_float_instance :
+  let xc := [[2; 0; 1]; [0; 3; 1]; [1; 1; 4]] in
+  let x := map (map (oofnat FOps)) xc in
+  let alpha := 0x1.999999999999ap-4%float in
+  (exists m, multinomial_fit FOps C11.Corr.f_to_usize x [5; -2; 5]%Z alpha None = Some m /\
+             m.(c_classes) = [-2; 5]%Z /\ m.(c_fcount) = [[0; 3; 1]; [3; 1; 5]] /\ ncols x = 3) /\
+  Forall2 (Forall2 (fun v c => FloatError.ffin v /\ FloatError.FR v = INR c /\ (Z.of_nat c < 2 ^ 64)%Z)) x xc /\
+  (/ 2 ^ 1022 <= FloatError.FR alpha <= 2 ^ 53)%R /\
+  (Z.of_nat (list_sum [3; 1; 5]%nat) < 2 ^ 53)%Z /\ (Z.of_nat 3%nat < 2 ^ 53)%Z.
+Proof.
+  cbv zeta. split; [eexists; repeat split; vm_compute; reflexivity|].
+  split; [apply C11.ProofsFloat.counts_matrix_is_count; intros row Hr c Hc; cbn in Hr;
+          repeat (destruct Hr as [<-|Hr]; [cbn in Hc; repeat (destruct Hc as [<-|Hc]; [cbn; lia|]); destruct Hc|]);
+          destruct Hr|].
+  split; [apply C11.ProofsFloat.alpha_range_b_sound; vm_compute; reflexivity|].
+  split; cbn; lia.
+Qed.
+
+(* Bernoulli on real-valued data binarised at 0.5, alpha = 0.1 *)
+Example C11_bernoulli_float_instance :
+  let x0 := [[0x1.3333333333333p-2; 0x1.6666666666666p-1]; [0x1.ccccccccccccdp-1; 0x1.999999999999ap-4];
+             [0x1.3333333333333p-1; 0x1.3333333333333p-1]]%float in
+  let alpha := 0x1.999999999999ap-4%float in
+  exists m, bernoulli_fit FOps C11.Corr.f_to_usize x0 [5; -2; 5]%Z alpha None (Some 0x1p-1%float) = Some m /\
+            m.(c_count) = [1; 2] /\ m.(c_fcount) = [[1; 0]; [1; 2]] /\
+            ncols (binarize FOps (Some 0x1p-1%float) x0) = 2 /\
+            (/ 2 ^ 1022 <= FloatError.FR alpha <= 2 ^ 53)%R.
+Proof.
+  cbv zeta. eexists. split; [vm_compute; reflexivity|]. split; [reflexivity|]. split; [reflexivity|].
+  split; [reflexivity|]. apply C11.ProofsFloat.alpha_range_b_sound. vm_compute. reflexivity.
+Qed.
+
+(* Gaussian on 0.1, 0.2, ... (every operation rounds): the fitted means are finite *)
+Example C11_gaussian_float_instance :
+  let x := [[0x1.999999999999ap-4; 0x1.999999999999ap-3]; [0x1.3333333333333p-2; 0x1.6666666666666p-1];
+            [0x1.999999999999ap-3; 0x1.999999999999ap-3]; [0x1.999999999999ap-2; (-0x1.999999999999ap-4)]]%float in
+  exists m, gaussian_fit FOps x [7; -1; 7; -1]%Z None = Some m /\
+            m.(g_classes) = [-1; 7]%Z /\ m.(g_count) = [2; 2] /\ ncols x = 2 /\
+            Forall (Forall (fun t => PrimFloat.is_finite t = true)) m.(g_theta) /\
+            (Z.of_nat 2%nat < 2 ^ 53)%Z.
+Proof.
+  cbv zeta. eexists. split; [vm_compute; reflexivity|]. split; [reflexivity|]. split; [reflexivity|].
+  split; [reflexivity|]. split; [|cbn; lia]. repeat constructor.
+Qed.
+
+(* Gaussian on count data: class 7 has rows (1,2), (2,2): column totals 3 and 4, means 1.5 and 2 exactly *)
+Example C11_gaussian_integer_instance :
+  let xc := [[1; 2]; [3; 5]; [2; 2]; [4; 1]] in
+  let x := map (map (oofnat FOps)) xc in
+  (exists m, gaussian_fit FOps x [7; -1; 7; -1]%Z None = Some m /\ m.(g_count) = [2; 2] /\
+             m.(g_theta) = [[0x1.cp+1; 3]; [0x1.8p+0; 2]]%float) /\
+  Forall2 (Forall2 (fun v c => FloatError.ffin v /\ FloatError.FR v = INR c /\ (Z.of_nat c < 2 ^ 64)%Z)) x xc /\
+  (Z.of_nat (list_sum (col 0%nat 0%nat (class_rows xc [7; -1; 7; -1]%Z 7%Z))) <= 2 ^ 53)%Z.
+Proof.
+  cbv zeta. split; [eexists; repeat split; vm_compute; reflexivity|].
+  split; [|cbn; lia].
+  apply C11.ProofsFloat.counts_matrix_is_count; intros row Hr c Hc; cbn in Hr;
+    repeat (destruct Hr as [<-|Hr]; [cbn in Hc; repeat (destruct Hc as [<-|Hc]; [cbn; lia|]); destruct Hc|]);
+    destruct Hr.
+Qed.
